@@ -36,6 +36,9 @@ type Behaviour struct {
 	Keys    []Key `json:"keys"`
 	Queries []Key `json:"queries"`
 	Ops     []Op  `json:"ops"`
+	// Silent: number of leading operations that are executed without logging (their transitions are
+	// validated through other behaviours); the "init" event then carries the state reached.
+	Silent int `json:"silent"`
 }
 
 const epoch = 1_000_000
@@ -112,6 +115,7 @@ type Event struct {
 	// universe (init events only)
 	Keys    []Key `json:"keys"`
 	Queries []Key `json:"queries"`
+	Jump    bool  `json:"jump"` // init event emitted after a silent prefix
 	// state projection
 	Count   int   `json:"count"`
 	CountFn int   `json:"countfn"`
@@ -231,6 +235,50 @@ func (r *replayer) project(ev *Event, nbuckets int) {
 	}
 }
 
+// apply executes one operation on the real cache and records what it reported in ev.
+func (r *replayer) apply(op Op, evp *Event) {
+	ev := evp
+	kb := toBytes(op.Key)
+	switch op.Op {
+	case "put":
+		evicted, added := r.c.Put(kb, op.V, toTime(op.T), toTime(op.E))
+		ev.Added = added
+		if evicted != nil {
+			ev.HasEv, ev.Evicted = true, fromBytes(evicted.Key)
+		}
+	case "touch":
+		evicted, added := r.c.Update(kb, func(e kademlia.Entry[int], exists bool) kademlia.Entry[int] {
+			e2 := e
+			if !exists {
+				e2.Key = kb
+				e2.CreatedAt = toTime(op.T)
+			}
+			e2.ExpiresAt = toTime(op.E)
+			e2.Value = op.V
+			return e2
+		})
+		ev.Added = added
+		if evicted != nil {
+			ev.HasEv, ev.Evicted = true, fromBytes(evicted.Key)
+		}
+	case "delete":
+		before := r.c.Contains(kb, toTime(1))
+		e := r.c.Delete(kb)
+		// Delete returns a pointer to a zero entry when the key is absent; "deleted" is
+		// reported from the returned entry's key.
+		ev.Deleted = e != nil && e.Key != nil
+		_ = before
+	case "expire":
+		out := r.c.Expire(nil, toTime(op.T))
+		for _, e := range out {
+			ev.Out = append(ev.Out, fromBytes(e.Key))
+		}
+		sort.Slice(ev.Out, func(i, j int) bool { return keyLess(ev.Out[i], ev.Out[j]) })
+	default:
+		panic("unknown op " + op.Op)
+	}
+}
+
 func (r *replayer) run(w *trace.Writer) {
 	b := r.b
 	nbuckets := 8*len(b.Locus) + 1
@@ -240,7 +288,11 @@ func (r *replayer) run(w *trace.Writer) {
 		for _, k := range b.Prefill {
 			r.c.Put(toBytes(k), 1, toTime(1), time.Time{})
 		}
+		for _, op := range b.Ops[:b.Silent] {
+			r.apply(op, &Event{})
+		}
 	})
+	ev.Jump = b.Silent > 0
 	if p {
 		ev.Panic, ev.PanicV = true, "NewCache/prefill: "+what
 		ev.Ents, ev.MinExp = []Ent{}, make([]int, nbuckets)
@@ -250,52 +302,12 @@ func (r *replayer) run(w *trace.Writer) {
 	}
 	r.project(&ev, nbuckets)
 	w.Emit(ev)
-	for _, op := range b.Ops {
+	for _, op := range b.Ops[b.Silent:] {
 		ev := Event{Ev: op.Op, Beh: b.ID, Max: b.Max, Min: b.Min, Key: op.Key, V: op.V, T: op.T, E: op.E, Evicted: Key{}, Out: []Key{}, Keys: []Key{}, Queries: []Key{}}
 		if ev.Key == nil {
 			ev.Key = Key{}
 		}
-		kb := toBytes(op.Key)
-		p, what := guard(func() {
-			switch op.Op {
-			case "put":
-				evicted, added := r.c.Put(kb, op.V, toTime(op.T), toTime(op.E))
-				ev.Added = added
-				if evicted != nil {
-					ev.HasEv, ev.Evicted = true, fromBytes(evicted.Key)
-				}
-			case "touch":
-				evicted, added := r.c.Update(kb, func(e kademlia.Entry[int], exists bool) kademlia.Entry[int] {
-					e2 := e
-					if !exists {
-						e2.Key = kb
-						e2.CreatedAt = toTime(op.T)
-					}
-					e2.ExpiresAt = toTime(op.E)
-					e2.Value = op.V
-					return e2
-				})
-				ev.Added = added
-				if evicted != nil {
-					ev.HasEv, ev.Evicted = true, fromBytes(evicted.Key)
-				}
-			case "delete":
-				before := r.c.Contains(kb, toTime(1))
-				e := r.c.Delete(kb)
-				// Delete returns a pointer to a zero entry when the key is absent; "deleted" is
-				// reported from the returned entry's key.
-				ev.Deleted = e != nil && e.Key != nil
-				_ = before
-			case "expire":
-				out := r.c.Expire(nil, toTime(op.T))
-				for _, e := range out {
-					ev.Out = append(ev.Out, fromBytes(e.Key))
-				}
-				sort.Slice(ev.Out, func(i, j int) bool { return keyLess(ev.Out[i], ev.Out[j]) })
-			default:
-				panic("unknown op " + op.Op)
-			}
-		})
+		p, what := guard(func() { r.apply(op, &ev) })
 		if p {
 			ev.Panic, ev.PanicV = true, op.Op+": "+what
 		}
